@@ -227,3 +227,49 @@ func VH_C10_two() {
 	vhRichReads("C10.two.reopen_b", db2, rich)
 	vAssert("C10.two.reopen_control", db2.Control() == nil)
 }
+
+// VH_C10_shared: two collections created from the SAME Schema value (the
+// usual `s := DefaultSchema; s.Asynchrone(..); Create(A, s); Create(B, s)`).
+// Re-creating A later with other asynchronous settings is A's business only:
+// B keeps its own threshold — its pending writes still reach disk at the first
+// poll once their count reaches it — and B's settings survive a restart.
+func VH_C10_shared() {
+	root := vTempDir()
+	db := Open(root)
+	thr := vInt("thr")
+	vAssume(vAnd(thr >= 1, thr <= 3))
+	s := vhAsyncSchema(thr, time.Hour)
+	vAssert("C10.shared.create_a", db.Create(&vObj{}, s) == nil)
+	vAssert("C10.shared.create_b", db.Create(&vRich{}, s) == nil)
+	var rich []vhRichRow
+	nb := vLen("nb", 1, 3)
+	for k := 0; k < nb; k++ {
+		r := vhNewRich(k, "")
+		vAssert("C10.shared.insert_b", db.InsertOrUpdate(r) == nil)
+		rich = append(rich, vhRichRow{r.UUID(), vhRichStored(r)})
+	}
+	// A changes its mind
+	s2 := DefaultSchema
+	switch vChoice("a_becomes", 3) {
+	case 0:
+		s2.Asynchrone(1000000, time.Hour)
+	case 1:
+		s2.AsyncWrites = &Async{Enable: false}
+	case 2: // synchronous
+	}
+	vAssert("C10.shared.recreate_a", db.Create(&vObj{}, s2) == nil)
+	// B is untouched: everything visible, flushed by its own threshold
+	vhRichReads("C10.shared.b_visible", db, rich)
+	vRunSpawned(1)
+	for i := range rich {
+		vAssert("C10.shared.b_flushed_iff_own_threshold", vFileExists(root+"/sod.vRich/"+rich[i].uuid+".json") == (nb >= thr))
+	}
+	vAssert("C10.shared.close", db.Close() == nil)
+	db2 := Open(root)
+	sb, err := db2.Schema(&vRich{})
+	vAssert("C10.shared.b_schema", err == nil && sb != nil)
+	if err == nil && sb != nil {
+		vAssert("C10.shared.b_settings_kept", sb.AsyncWrites != nil && sb.AsyncWrites.Enable && sb.AsyncWrites.Threshold == thr && sb.AsyncWrites.Timeout == time.Hour)
+	}
+	vhRichReads("C10.shared.b_reopen", db2, rich)
+}
